@@ -53,6 +53,17 @@ _singles: dict = {}
 
 
 def run_config(modes, cfg, req):
+    """Outcomes under one optimizer configuration; None when the worker did not answer in time (wall-clock
+    guard: inconclusive, never a violation)."""
+    from pestverif.modes import WorkerDied
+
+    try:
+        return _run_config(modes, cfg, req)
+    except WorkerDied:
+        return None
+
+
+def _run_config(modes, cfg, req):
     from pestverif.modes import Worker, one_shot
 
     if isinstance(cfg, tuple) and len(cfg) == 1:
@@ -78,6 +89,8 @@ def eval_case(modes, case):
     if base["load"][0] != "ok":
         return None
     res = run_config(modes, cfg, {"text": text, "calls": [call], "gen": True})
+    if res is None:
+        return None
     if res["load"][0] != "ok":
         return f"[{cfg_name(cfg)}] load: Parser construction failed with this optimizer configuration: {res['load']}"
     which = case["mode"]
@@ -115,13 +128,19 @@ def run_skip_matrix(ctx: Ctx, modes, idx):
             rules = [("r", mod, ("seq", (rep, ("opt", ("id", "ANY")), ("opt", ("id", "ANY")))) if form == "star"
                       else ("alt", (("seq", (rep, ("opt", ("id", "ANY")))), ("id", "ANY"))))]
             text = gprint.grammar_text(rules)
-            base = modes.raw.call("pestverif.modes:eval_grammar", {"text": text, "calls": calls, "gen": False})
+            base = run_config(modes, "raw", {"text": text, "calls": calls, "gen": False})
+            if base is None:
+                ctx.count("wall_clock_timeout_inconclusive")
+                continue
             if base["load"][0] != "ok":
                 ctx.count("frontend_rejected")
                 continue
             ctx.count("skip_matrix_grammars")
             for cfg in ("opt", (1,)):
                 res = run_config(modes, cfg, {"text": text, "calls": calls, "gen": True})
+                if res is None:
+                    ctx.count("wall_clock_timeout_inconclusive")
+                    continue
                 if res["load"][0] != "ok":
                     continue
                 for which, outs in (("int", res["int"]), ("gen", res["gen"])):
@@ -157,13 +176,19 @@ def run_squash_matrix(ctx: Ctx, modes, idx):
             continue
         rules = [("r", "", ("seq", (("alt", tuple(alt)), ("opt", ("str", "x")))))]
         text = gprint.grammar_text(rules)
-        base = modes.raw.call("pestverif.modes:eval_grammar", {"text": text, "calls": calls, "gen": False})
+        base = run_config(modes, "raw", {"text": text, "calls": calls, "gen": False})
+        if base is None:
+            ctx.count("wall_clock_timeout_inconclusive")
+            continue
         if base["load"][0] != "ok":
             ctx.count("frontend_rejected")
             continue
         ctx.count("squash_matrix_grammars")
         for cfg in ("opt", (2,), (3,)):
             res = run_config(modes, cfg, {"text": text, "calls": calls, "gen": True})
+            if res is None:
+                ctx.count("wall_clock_timeout_inconclusive")
+                continue
             name = cfg_name(cfg)
 
             def mk(call, which, cfg=cfg):
@@ -200,7 +225,10 @@ def run_trivia_matrix(ctx: Ctx, modes, idx):
         text = gprint.grammar_text(rules)
         if ctx.tier == "quick":
             calls = [c for c in calls if c[0] not in ("r5", "r6", "r8")]
-        base = modes.raw.call("pestverif.modes:eval_grammar", {"text": text, "calls": calls, "gen": False})
+        base = run_config(modes, "raw", {"text": text, "calls": calls, "gen": False})
+        if base is None:
+            ctx.count("wall_clock_timeout_inconclusive")
+            continue
         if base["load"][0] != "ok":
             ctx.count("frontend_rejected")
             continue
@@ -208,6 +236,9 @@ def run_trivia_matrix(ctx: Ctx, modes, idx):
         # the trivia fusion happens in every Optimizer; quick: default pipeline, skip alone, inline-silent alone
         for cfg in ["opt"] + [(i,) for i in ((1, 4) if ctx.tier == "quick" else range(5))]:
             res = run_config(modes, cfg, {"text": text, "calls": calls, "gen": True})
+            if res is None:
+                ctx.count("wall_clock_timeout_inconclusive")
+                continue
             name = cfg_name(cfg)
 
             def mk(call, which, cfg=cfg):
@@ -264,13 +295,18 @@ def run_shard(ctx: Ctx, spec):
                 else:
                     configs.append(tuple(rng.randrange(5) for _ in range(n)))
             ctx.count("grammars:" + profile)
-            base = modes.raw.call("pestverif.modes:eval_grammar",
-                                  {"text": case["text"], "calls": calls, "gen": False, "tree_view": True})
+            base = run_config(modes, "raw", {"text": case["text"], "calls": calls, "gen": False, "tree_view": True})
+            if base is None:
+                ctx.count("wall_clock_timeout_inconclusive")
+                return
             if base["load"][0] != "ok":
                 ctx.count("frontend_rejected")
                 return
             for cfg in configs:
                 res = run_config(modes, cfg, {"text": case["text"], "calls": calls, "gen": True, "tree_view": True})
+                if res is None:
+                    ctx.count("wall_clock_timeout_inconclusive")
+                    continue
                 name = cfg_name(cfg)
                 c0 = calls[0]
                 mk = lambda call, mode, cfg=cfg: fullcase.make_case(  # noqa: E731
